@@ -112,6 +112,8 @@ func C16(p *load.Prog, r *oblig.Run) {
 	c16ReflectSlices(p, r)
 	c16Stateless(p, r)
 	c16NoIdentity(p, r)
+	c16NilResults(p, r)
+	c16MapLoops(p, r)
 	c16Variables(p, r)
 	ops, err := extractOperators(p)
 	if err != nil {
@@ -558,7 +560,53 @@ func c16FreshAppend(p *load.Prog, r *oblig.Run) {
 						}
 						return
 					}
+					// a helper of package q that hands back the slice it appended to
+					if g := x.Call.StaticCallee(); g != nil && pkgPathOf(g) == load.PkgQ && len(g.Blocks) > 0 && g.Signature.Results().Len() == 1 {
+						for _, b := range g.Blocks {
+							if ret, ok := b.Instrs[len(b.Instrs)-1].(*ssa.Return); ok && len(ret.Results) == 1 {
+								walk(ret.Results[0], d+1)
+							}
+						}
+						return
+					}
 					bad = "the result of " + x.Call.String()
+				case *ssa.Extract:
+					if tc, ok := x.Tuple.(*ssa.Call); ok {
+						if g := tc.Call.StaticCallee(); g != nil && pkgPathOf(g) == load.PkgQ && len(g.Blocks) > 0 {
+							for _, b := range g.Blocks {
+								if ret, ok := b.Instrs[len(b.Instrs)-1].(*ssa.Return); ok && x.Index < len(ret.Results) {
+									walk(ret.Results[x.Index], d+1)
+								}
+							}
+							return
+						}
+					}
+					bad = fmt.Sprintf("%s (%T)", v.String(), v)
+				case *ssa.Parameter:
+					// a parameter of an unexported helper: what every caller hands over
+					h := x.Parent()
+					if h == nil || ast.IsExported(h.Name()) {
+						bad = "the parameter " + x.Name() + " of " + load.FuncName(h)
+						return
+					}
+					idx := -1
+					for i, q := range h.Params {
+						if q == x {
+							idx = i
+						}
+					}
+					n := 0
+					for _, caller := range p.Repo {
+						for _, cs := range su.CallsTo(caller, h) {
+							if idx >= 0 && idx < len(cs.Call.Args) {
+								n++
+								walk(cs.Call.Args[idx], d+1)
+							}
+						}
+					}
+					if n == 0 {
+						bad = "the parameter " + x.Name() + " of " + load.FuncName(h) + " (no static caller)"
+					}
 				case *ssa.UnOp:
 					if al, ok := x.X.(*ssa.Alloc); ok && x.Op == token.MUL {
 						for _, ref := range *al.Referrers() {
